@@ -72,7 +72,7 @@ extern "C" void c07_begin()
   try { bs.doit(ctx); } catch (RuntimeError& re) { escaped = true; code = re.no; } catch (...) { verif_assert(false, "C01: foreign exception from begin"); return; }
   VX_WITNESS();
   int expect = clause_matches(CL[VX_CL][0]) ? 1 : clause_matches(CL[VX_CL][1]) ? 2 : 0;
-  verif_assert(ctx.execLevel() == lvl, "C07/C15: execution level restored on every exit");
+  verif_assert(ctx.execLevel() == lvl, "C07/C15/C06: execution level restored on every exit (an error passing through then unstacks the enclosing loops)");
   verif_assert(ran_body == 1 && lvl_in_body == lvl + 1, "C07: body runs once, one level deeper");
   verif_assert(body_ctx_ok && h_ctx_ok, "C07/C14: body and handler run in the context that executes the block, not in the one the block was compiled in");
   verif_assert(ran_h1 == (expect == 1 ? 1 : 0) && ran_h2 == (expect == 2 ? 1 : 0), "C07: exactly the first matching clause runs (others = any catchable kind)");
